@@ -187,6 +187,14 @@ theorem unknown_ext_rejected (N : Nat) (opts : List Ext) (msgs : MsgList) (k : N
       · simp
       · split <;> simp
 
+/-- the same through DeliverTx (decoder first, then the ante handler) -/
+theorem unknown_ext_rejected_deliver (N : Nat) (opts : List Ext) (msgs : MsgList) (k : Nat)
+    (h : Ext.unknown k ∈ opts) : deliver N opts msgs ≠ .passGate := by
+  unfold deliver
+  split
+  · simp
+  · exact unknown_ext_rejected N opts msgs k h
+
 /-! ## what the source says now (regenerated facts, decided by the kernel) -/
 
 /-- the route table of NewAnteHandler, the default route and the rejection of an unknown first option -/
